@@ -154,7 +154,9 @@ fn exec_case(case: &Case, scratch: &Path, expected: &Expected) -> Result<(Vec<wo
     let fired = res.trace.iter().any(|t| t.detail.contains("err") || t.detail.contains("kill") || t.detail.contains("partial") || t.detail.contains("short") || t.detail.contains("eintr"));
     // a plan that did not fire is judged as a fault-free run
     let must_succeed = case.plan.must_succeed || !fired;
-    let j = Judge { tree: &case.tree, before: &before, after: &after, expected, fault: &case.plan.label, must_succeed, exit_code: res.exit_code, killed: res.killed };
+    // a leftover whose removal was itself made to fail cannot be blamed on the program
+    let unlink_failed: Vec<String> = res.trace.iter().filter(|t| t.op == "unlink" && t.detail.contains("err")).map(|t| t.path.clone()).collect();
+    let j = Judge { tree: &case.tree, before: &before, after: &after, expected, fault: &case.plan.label, must_succeed, exit_code: res.exit_code, killed: res.killed, unlink_failed: &unlink_failed };
     let v = world_f::judge(&j);
     let _ = std::fs::remove_dir_all(&root);
     Ok((v, res))
@@ -208,12 +210,43 @@ pub fn run_tree(seed: u64, thorough: bool, scratch: &Path) -> Result<TreeOutcome
         }
         picked
     };
+    let base_ops: std::collections::BTreeSet<(String, String)> = res.trace.iter().map(|t| (t.op.clone(), t.path.clone())).collect();
+    let mut second_level: Vec<Plan> = vec![];
     for plan in chosen {
         let case = Case { tree: tree.clone(), plan: plan.clone(), entropy, readdir, threads };
         let (v, res) = exec_case(&case, scratch, &expected)?;
         out.execs += 1;
         let fired = res.trace.iter().any(|t| t.detail.contains("err") || t.detail.contains("kill") || t.detail.contains("partial") || t.detail.contains("short") || t.detail.contains("eintr"));
         out.plans_run.push((plan.label.clone(), fired));
+        for x in v {
+            out.failures.push((case.clone(), x));
+        }
+        // fault sequences: operations that only happen *because* of the first fault (recovery, fallback, clean-up)
+        // are fault points of their own
+        if fired && !plan.must_succeed {
+            let recovery: Vec<TraceOp> = res.trace.iter().filter(|t| !base_ops.contains(&(t.op.clone(), t.path.clone())) && !t.detail.contains("err") && !t.detail.contains("kill") && !t.detail.contains("partial")).cloned().collect();
+            for p2 in plans_from_trace(&recovery) {
+                if p2.label.starts_with("write/short") {
+                    continue;
+                }
+                second_level.push(Plan { label: format!("{}+{}", plan.label, p2.label), text: format!("{}{}", plan.text, p2.text), must_succeed: false });
+            }
+        }
+    }
+    out.plans_total += second_level.len();
+    let second: Vec<Plan> = if thorough {
+        second_level.into_iter().take(400).collect()
+    } else {
+        let mut idx: Vec<usize> = (0..second_level.len()).collect();
+        faults.shuffle(&mut idx);
+        idx.into_iter().take(3).map(|i| second_level[i].clone()).collect()
+    };
+    for plan in second {
+        let case = Case { tree: tree.clone(), plan: plan.clone(), entropy, readdir, threads };
+        let (v, res) = exec_case(&case, scratch, &expected)?;
+        out.execs += 1;
+        let n_fired = res.trace.iter().filter(|t| t.detail.contains("err") || t.detail.contains("kill") || t.detail.contains("partial") || t.detail.contains("eintr")).count();
+        out.plans_run.push((format!("2nd:{}", plan.label.split('+').map(|l| l.split('/').take(2).collect::<Vec<_>>().join("/")).collect::<Vec<_>>().join("+")), n_fired >= 2));
         for x in v {
             out.failures.push((case.clone(), x));
         }
@@ -257,7 +290,11 @@ pub fn worker(tier: &str, seed: u64, from: u64, to: u64, _extra: &[String]) -> A
                     agg.distinct.insert(h);
                     if *fired {
                         agg.distinct_nontrivial.insert(h);
-                        agg.fault(label.split('/').take(2).collect::<Vec<_>>().join("/").as_str(), 1);
+                        if label.starts_with("2nd:") {
+                            agg.fault(label, 1);
+                        } else {
+                            agg.fault(label.split('/').take(2).collect::<Vec<_>>().join("/").as_str(), 1);
+                        }
                     } else {
                         agg.count("plans_that_did_not_fire", 1);
                     }
@@ -414,7 +451,8 @@ pub fn strace_cross_check(seed: u64, want: usize) -> (usize, usize, Vec<String>)
         let after = world_f::snapshot(&root);
         let code = out.status.code().unwrap_or(137);
         let killed = out.status.code().is_none() || code == 137;
-        let j = Judge { tree: &tree, before: &before, after: &after, expected: &expected, fault: label, must_succeed: false, exit_code: code, killed };
+        let none: Vec<String> = vec![];
+        let j = Judge { tree: &tree, before: &before, after: &after, expected: &expected, fault: label, must_succeed: false, exit_code: code, killed, unlink_failed: &none };
         let v_strace = world_f::judge(&j);
         let _ = std::fs::remove_dir_all(&root);
         compared += 1;
@@ -453,6 +491,7 @@ pub fn check(tier: &str, started: Instant) -> i32 {
     let findings = runner::load_findings();
     let mut violations = 0u64;
     let mut known_seen = vec![];
+    let min_deadline = started.elapsed().as_secs() + 180;
     let mut minimise_left = 6;
     for (k, f) in &agg.failures {
         if let Some(kf) = runner::known(&findings, "C19", &f.signature) {
@@ -462,7 +501,7 @@ pub fn check(tier: &str, started: Instant) -> i32 {
         }
         violations += 1;
         let case: Case = serde_json::from_value(f.case.clone()).expect("case");
-        let (mcase, evals, minimised) = if minimise_left > 0 {
+        let (mcase, evals, minimised) = if minimise_left > 0 && started.elapsed().as_secs() < min_deadline {
             minimise_left -= 1;
             let (m, used) = minimise(&case, &f.signature, 120, &scratch);
             if reproduces(&m, &f.signature, &scratch).is_some() {
